@@ -15,3 +15,5 @@ open SemantivaModel.Aggregator
 #print axioms SemantivaModel.Tie.C13.C13_launch_order_independent
 #print axioms SemantivaModel.Tie.C13.C13_prefix_started
 #print axioms SemantivaModel.Tie.C13.C13_full_trace
+#print axioms run_verdict_local
+#print axioms launch_verdict_local
